@@ -514,6 +514,12 @@ retry:
 func binaryOp(cb *CodeBuilder, tok token.Token, args []*internal.Elem) constant.Value {
 	if len(args) == 2 {
 		if a, b := args[0].CVal, args[1].CVal; a != nil && b != nil {
+			if binaryOpKinds[tok] != binaryOpShift && constClass(a) != constClass(b) {
+				// string with number, bool with string, ...: nothing to fold, and go/constant
+				// fails with a type-assertion panic on such pairs; the operand types are
+				// rejected by the operator's signature afterwards
+				return nil
+			}
 			if tok == token.QUO && isNormalInt(cb, args[0]) && isNormalInt(cb, args[1]) {
 				tok = token.QUO_ASSIGN // issue #805
 			}
@@ -521,6 +527,18 @@ func binaryOp(cb *CodeBuilder, tok token.Token, args []*internal.Elem) constant.
 		}
 	}
 	return nil
+}
+
+func constClass(v constant.Value) int {
+	switch v.Kind() {
+	case constant.Bool:
+		return 1
+	case constant.String:
+		return 2
+	case constant.Int, constant.Float, constant.Complex:
+		return 3
+	}
+	return 0
 }
 
 func isBool(cb *CodeBuilder, arg *internal.Elem) bool { // is bool
